@@ -115,6 +115,9 @@ func (c *Client) handshake(ctx context.Context) error {
 
 	if err := wg.Wait(); err != nil {
 		if ctxErr := ctx.Err(); ctxErr != nil {
+			// Watchdog could have observed the end of handshake before the
+			// parent context, so connection is not necessarily closed yet.
+			_ = c.conn.Close()
 			// Parent context is canceled, propagating error to allow error
 			// traversal, like errors.Is(err, context.Canceled) assertion.
 			return errors.Wrap(multierr.Append(err, ctxErr), "parent context done")
